@@ -430,6 +430,14 @@ void mon_count_max(const char *name, uint64_t value) {
     pthread_mutex_unlock(&s_mon_lock);
 }
 
+static FILE *s_dist_file;
+void mon_distinct(const char *name, uint64_t value) {
+    if (!s_dist_file) {
+        s_dist_file = open_out("dist", "w");
+    }
+    fprintf(s_dist_file, "%s %016llx\n", name, (unsigned long long)value);
+}
+
 void mon_violation(const char *key, const char *fmt, ...) {
     char detail[4096];
     va_list ap;
@@ -566,6 +574,10 @@ int mon_finish(void) {
     }
     fputs("]}\n", f);
     fclose(f);
+    if (s_dist_file) {
+        fclose(s_dist_file);
+        s_dist_file = NULL;
+    }
     fclose(s_samples_file);
     fclose(s_viol_file);
     fclose(s_notes_file);
